@@ -4984,7 +4984,7 @@ func updateMeshTopology(tx WriteTxn, idx uint64, node string, svc *structs.NodeS
 
 		var mapping *upstreamDownstream
 		if existing, ok := obj.(*upstreamDownstream); ok {
-			mapping := existing.DeepCopy()
+			mapping = existing.DeepCopy()
 			mapping.Refs[uid] = struct{}{}
 			mapping.ModifyIndex = idx
 
@@ -5010,10 +5010,39 @@ func updateMeshTopology(tx WriteTxn, idx uint64, node string, svc *structs.NodeS
 		inserted[upstream] = true
 	}
 
-	for u := range oldUpstreams {
-		if !inserted[u] {
-			if _, err := tx.DeleteAll(tableMeshTopology, indexID, u, downstream); err != nil {
-				return fmt.Errorf("failed to truncate %s table: %v", tableMeshTopology, err)
+	// Drop this registration's reference from the pairs it no longer declares
+	// (an upstream was removed, or the proxy now fronts another service). The
+	// pair itself goes away only with its last reference.
+	if e, ok := existing.(*structs.ServiceNode); ok {
+		oldDownstream := structs.NewServiceName(e.ServiceProxy.DestinationServiceName, &e.EnterpriseMeta)
+		sid := svc.CompoundServiceID()
+		uid := structs.UniqueID(node, sid.String())
+		for u := range oldUpstreams {
+			if inserted[u] && oldDownstream == downstream {
+				continue
+			}
+			obj, err := tx.First(tableMeshTopology, indexID, u, oldDownstream)
+			if err != nil {
+				return fmt.Errorf("%q lookup failed: %v", tableMeshTopology, err)
+			}
+			m, ok := obj.(*upstreamDownstream)
+			if !ok {
+				continue
+			}
+			if _, ok := m.Refs[uid]; !ok {
+				continue
+			}
+			copy := m.DeepCopy()
+			delete(copy.Refs, uid)
+			if len(copy.Refs) == 0 {
+				if err := tx.Delete(tableMeshTopology, m); err != nil {
+					return fmt.Errorf("failed to truncate %s table: %v", tableMeshTopology, err)
+				}
+			} else {
+				copy.ModifyIndex = idx
+				if err := tx.Insert(tableMeshTopology, copy); err != nil {
+					return fmt.Errorf("failed inserting %s mapping: %s", tableMeshTopology, err)
+				}
 			}
 			if err := indexUpdateMaxTxn(tx, idx, tableMeshTopology); err != nil {
 				return fmt.Errorf("failed updating %s index: %v", tableMeshTopology, err)
